@@ -326,7 +326,8 @@ Section LbfgsRun.
     unfold ls_init_o, ls_init. cbn [dim pt sdir extra step_len der].
     rewrite L0. repeat split.
     - rewrite vneg_length. apply grad_length. exact L0.
-    - cbn. lra. - pose proof lb_upd_thres_pos. cbn. lra. - constructor. - constructor. - cbn. lia.
+    - unfold lb_init_model; cbn [lb_thres]; pose proof lb_upd_thres_pos; lra.
+    - constructor. - constructor. - cbn. lia.
     - apply halve_feasible_nonneg_pre.
     - apply dot_neg_nonpos.
     - intro NZ. rewrite dot_vneg_r. pose proof (dot_self_pos _ NZ). lra.
@@ -395,3 +396,99 @@ Section LbfgsRun.
     apply (step_o_monotone f grad lb_model lbfgs_dir o s s' C Ht Hd H).
   Qed.
 End LbfgsRun.
+
+(* ---------------- save / restore: LBFGS::write appends m_numHist, m_bdiag, m_steps, m_gradientDifferences ---------------- *)
+Lemma take_vecs_app : forall vs rest, take_vecs (length vs) (map FV vs ++ rest) = Some (vs, rest).
+Proof.
+  induction vs as [|v vs IH]; intros rest; [reflexivity|].
+  cbn [length map app take_vecs]. rewrite IH. reflexivity.
+Qed.
+
+Lemma combine_fst_snd : forall (A B : Type) (l : list (A * B)), combine (map fst l) (map snd l) = l.
+Proof. induction l as [|[a b] l IH]; [reflexivity|]. cbn [map combine fst snd]. rewrite IH. reflexivity. Qed.
+
+(* m_updThres is not archived: the restored model has the threshold of the instance that is read into *)
+Lemma lb_extra_roundtrip : forall (m : lb_model) t,
+  lb_restore_extra t (lb_save_extra m) = Some (mkLB (lb_hist m) (lb_bdiag m) t (lb_pairs m)).
+Proof.
+  intros [h b t0 ps] t. unfold lb_save_extra. cbn [lb_hist lb_bdiag lb_pairs app lb_restore_extra].
+  replace (map (fun p : vec * vec => FV (fst p)) ps) with (map FV (map fst ps)) by (rewrite map_map; reflexivity).
+  replace (map (fun p : vec * vec => FV (snd p)) ps) with (map FV (map snd ps)) by (rewrite map_map; reflexivity).
+  replace (length ps) with (length (map fst ps)) at 1 by apply map_length.
+  rewrite take_vecs_app.
+  replace (length ps) with (length (map snd ps)) at 1 by apply map_length.
+  rewrite <- (app_nil_r (map FV (map snd ps))). rewrite take_vecs_app.
+  rewrite Nat.eqb_refl, combine_fst_snd. reflexivity.
+Qed.
+
+Lemma lbfgs_restore_save : forall (fresh s : ls_state lb_model),
+  ls_restore lb_model (lb_restore_extra (lb_thres (extra fresh))) fresh (ls_save lb_model lb_save_extra s) =
+  Some (mkLS (ls_min s) (ls_max s) (ls_type s) (step_len s) (dim s) (pt s) (val s) (der s) (sdir s)
+             (last_der s) (last_pt s) (last_val s)
+             (mkLB (lb_hist (extra s)) (lb_bdiag (extra s)) (lb_thres (extra fresh)) (lb_pairs (extra s)))).
+Proof.
+  intros fresh s. unfold ls_restore, ls_save. cbn [app]. rewrite lb_extra_roundtrip. reflexivity.
+Qed.
+
+(* the archived member list is complete PROVIDED the instance that is read into has the same m_updThres - which initModel()
+   sets to the constant 1e-10, so every instance on which init() was called qualifies (C10_lbfgs_threshold_constant) *)
+Theorem lbfgs_saverestore_continues : forall f grad (dir : ls_state lb_model -> lb_model * vec) (fresh s s' : ls_state lb_model),
+  lb_thres (extra fresh) = lb_thres (extra s) ->
+  ls_restore lb_model (lb_restore_extra (lb_thres (extra fresh))) fresh (ls_save lb_model lb_save_extra s) = Some s' ->
+  s' = s /\ forall orcs k n, ls_run_o f grad lb_model dir orcs k n s' = ls_run_o f grad lb_model dir orcs k n s.
+Proof.
+  intros f grad dir fresh s s' T H. rewrite lbfgs_restore_save in H. rewrite T in H.
+  assert (s' = s) as E by (inversion H; destruct s as [a b c d e p v g sd ld lp lv [h bd t ps]]; reflexivity).
+  split; [exact E|]. intros. rewrite E. reflexivity.
+Qed.
+
+(* the threshold after init and after every step is the constant of initModel, for both direction rules *)
+Lemma lbfgs_hist_thres : forall s : ls_state lb_model, lb_thres (lbfgs_hist s) = lb_thres (extra s).
+Proof. intros s. unfold lbfgs_hist. rewrite update_hist_eq. destruct (qltb _ _); reflexivity. Qed.
+
+Theorem lbfgs_threshold_constant : forall f grad feasible numhist (dir : ls_state lb_model -> lb_model * vec),
+  (forall s1, fst (dir s1) = lbfgs_hist s1) ->
+  forall constrained lstype x0 orcs k s,
+  ls_run_o f grad lb_model dir orcs 0%nat k (ls_init_o f grad feasible lb_model (lb_init_model numhist) constrained lstype x0) = Some s ->
+  lb_thres (extra s) = lb_upd_thres.
+Proof.
+  intros f grad feasible numhist dir Hd c ty x0 orcs k s R.
+  refine (run_o_invariant f grad lb_model dir (fun s => lb_thres (extra s) = lb_upd_thres) _ orcs k 0%nat
+            (ls_init_o f grad feasible lb_model (lb_init_model numhist) c ty x0) s eq_refl R).
+  intros o s0 s1 I H.
+  destruct (step_o_inv f grad lb_model dir o s0 s1 H) as (p' & v' & g' & _ & _ & _ & _ & _ & _ & _ & _ & _ & _ & E & _).
+  rewrite E, Hd, lbfgs_hist_thres. exact I.
+Qed.
+
+(* ... and without that proviso the list is NOT complete: an instance whose m_updThres holds another value (the member is
+   uninitialised before the first init) continues differently *)
+Definition lbx_init := ls_init_o exq_f exq_grad all_true lb_model (lb_init_model 5) false 2 [4; -2].
+Definition lbx_s := ls_run_o exq_f exq_grad lb_model lbfgs_dir (fun _ => ex_oracle) 0 2 lbx_init.
+Definition lbx_fresh : ls_state lb_model :=
+  mkLS 0 1 2%nat 1 2%nat [0; 0] 0 [0; 0] [0; 0] [0; 0] [0; 0] 0 (mkLB 5%nat 1 1000 []).
+Example lbfgs_restore_other_threshold_refuted :
+  match lbx_s with
+  | Some s =>
+    match ls_restore lb_model (lb_restore_extra (lb_thres (extra lbx_fresh))) lbx_fresh (ls_save lb_model lb_save_extra s) with
+    | Some s' =>
+      match ls_run_o exq_f exq_grad lb_model lbfgs_dir (fun _ => ex_oracle) 0 2 s',
+            ls_run_o exq_f exq_grad lb_model lbfgs_dir (fun _ => ex_oracle) 0 2 s with
+      | Some a, Some b => negb (Qeq_bool (hd 0 (pt a)) (hd 0 (pt b)))
+      | _, _ => false
+      end
+    | None => false
+    end
+  | None => false
+  end = true.
+Proof. vm_compute. reflexivity. Qed.
+
+(* a run with a history longer than the memory: three steps with m_numHist = 2 *)
+Definition lbx_run (ty h n : nat) :=
+  ls_run_o (quad_f exb_A exb_b) (quad_grad exb_A exb_b) lb_model lbfgs_dir (fun _ => ex_oracle) 0 n
+    (ls_init_o (quad_f exb_A exb_b) (quad_grad exb_A exb_b) all_true lb_model (lb_init_model h) false ty [4; -2]).
+Definition lb_opt_val (o : option (ls_state lb_model)) : Q := match o with Some s => val s | None => 0 end.
+Definition lb_hist_len (o : option (ls_state lb_model)) : nat := match o with Some s => length (lb_pairs (extra s)) | None => 0 end.
+Example lbfgs_runs_decrease :
+  forallb (fun ty => strictly_decreasing (map (fun n => lb_opt_val (lbx_run ty 2 n)) [0; 1; 2; 3; 4]%nat)) [0; 1; 2]%nat = true /\
+  map (fun n => lb_hist_len (lbx_run 2 2 n)) [0; 1; 2; 3; 4]%nat = [0; 1; 2; 2; 2]%nat.
+Proof. vm_compute. split; reflexivity. Qed.
